@@ -802,6 +802,52 @@ func genC16(g *Gen) {
 		}
 		g.Case("cntp", J{"keys": strsJ(keys), "queries": qs})
 	}
+	// many counters (129..300: more than any fixed scratch array) asked of ONE object several times in a row, more,
+	// fewer, more; keys whose first differences lie 0..40 bytes apart (counters reach far beyond the shallowest one)
+	for c := 0; c < g.N(30, 800); c++ {
+		deep := bsString(r, 17+r.Intn(24))
+		keys := []string{string(deep) + "a", string(deep) + "b", string(bsString(r, 2))}
+		for i, n := 0, 3+r.Intn(6); i < n; i++ {
+			switch r.Intn(3) {
+			case 0:
+				keys = append(keys, string(bsString(r, 1+r.Intn(3))))
+			case 1:
+				keys = append(keys, string(deep)+string(bsString(r, 1+r.Intn(3))))
+			default:
+				keys = append(keys, string(deep[:1+r.Intn(len(deep))])+string(bsString(r, 1+r.Intn(2))))
+			}
+		}
+		set := map[string]bool{}
+		var uniq []string
+		for _, k := range keys {
+			if !set[k] {
+				set[k] = true
+				uniq = append(uniq, k)
+			}
+		}
+		sort.Strings(uniq)
+		if len(uniq) < 3 {
+			continue
+		}
+		var qs [][]int64
+		// first the whole set with many counters, then with fewer, then every pair and the whole set with many again
+		n := int64(len(uniq))
+		qs = append(qs, []int64{0, n, 300}, []int64{0, n, 130})
+		for i := int64(0); i+2 <= n; i++ {
+			qs = append(qs, []int64{i, i + 2, 300})
+		}
+		qs = append(qs, []int64{0, n, 257})
+		for k := 0; k < 5; k++ {
+			s0 := r.Intn(len(uniq) - 1)
+			e0 := s0 + 2 + r.Intn(len(uniq)-s0-1)
+			m := []int64{300, 130, 257, 129, 131, 128, 200, 64, 2}[r.Intn(9)]
+			if k%2 == 1 {
+				m = []int64{130, 131, 129, 140}[r.Intn(4)] // fewer, but still beyond 129
+			}
+			qs = append(qs, []int64{int64(s0), int64(e0), m})
+		}
+		g.Case("cntp", J{"keys": strsJ(uniq), "queries": qs})
+	}
 	// larger key sets (17..70 keys): sub-ranges starting and ending on and around multiples of 8, 16, 32
 	// (block-wise summaries of the first-difference bits), few counters
 	for c := 0; c < g.N(48, 4000); c++ {
